@@ -126,7 +126,120 @@ SUPPORT = [('strict_port', 'StrictPort'), ('ilog', 'ILog'), ('misc_utils', 'Misc
            ('mutex_wrapped', 'MutexWrapped')]
 
 
+DYNAMIC = r"""
+import inspect, json, re, sys
+import dznpy
+assert dznpy.__file__.startswith(sys.argv[1]), dznpy.__file__
+from dznpy import dznpy_version, text_gen
+from dznpy.adv_shell.common import FacilitiesOrigin
+from dznpy.scoping import NamespaceIds
+import importlib
+S = '\x01NS\x01'
+res = {'VERSION': dznpy_version.VERSION, 'COPYRIGHT': dznpy_version.COPYRIGHT,
+       'DO_NOT_MODIFY': text_gen.DO_NOT_MODIFY, 'EOL': text_gen.EOL,
+       'DEFAULT_INDENT_NR_SPACES': text_gen.DEFAULT_INDENT_NR_SPACES,
+       'IMPORT': FacilitiesOrigin.IMPORT.value, 'CREATE': FacilitiesOrigin.CREATE.value, 'support': {}}
+for mod in sys.argv[2:]:
+    m = importlib.import_module('dznpy.support_files.' + mod)
+    hfn = getattr(m, 'header_hh_template', None) or getattr(m, 'header_hh')
+    takes = len(inspect.signature(hfn).parameters) >= 1
+    hdr = hfn(S) if takes else hfn()
+    body = m.body_hh()
+    plain = m.create_header(None)
+    pref = m.create_header(NamespaceIds(['Zq7']))
+    assert plain.filename.startswith('Dzn') and pref.filename.startswith('Zq7_Dzn'), (plain.filename, pref.filename)
+    suffix = plain.filename[len('Dzn'):]
+    assert pref.filename == 'Zq7_Dzn' + suffix
+    sysinc = re.findall(r'^#include <([^>]*)>$', plain.contents, re.M)
+    proj = re.findall(r'^#include "Dzn_([^"]*)\.hh"$', plain.contents, re.M)
+    proj2 = re.findall(r'^#include "Zq7_Dzn_([^"]*)\.hh"$', pref.contents, re.M)
+    assert proj == proj2, (proj, proj2)
+    assert len(re.findall(r'^#include ', plain.contents, re.M)) == len(sysinc) + len(proj)
+    res['support'][mod] = {'header_lines': list(hdr.lines), 'header_param': takes, 'body_lines': list(body.lines),
+                           'sys': sysinc, 'proj': proj, 'suffix': suffix}
+print(json.dumps(res))
+"""
+
+
+def dynamic_extract():
+    """the literal texts and tables as the CURRENT code computes them (the functions are run, so any
+    text-preserving restructuring of how they are assembled is followed)"""
+    import json
+    import subprocess
+    src = os.path.join(REPO, 'src')
+    env = dict(os.environ, PYTHONPATH=src, PYTHONHASHSEED='0')
+    r = subprocess.run(['/venv/bin/python', '-c', DYNAMIC, src] + [m for m, _ in SUPPORT], capture_output=True,
+                       text=True, env=env, timeout=120)
+    if r.returncode != 0:
+        raise TranslateError('dynamic extraction failed: ' + r.stderr.strip().splitlines()[-1] if r.stderr.strip() else 'rc')
+    return json.loads(r.stdout)
+
+
+def text_of_lines(lines):
+    """a text whose TextBlock has exactly these lines"""
+    return ''.join(l + '\n' for l in lines)
+
+
+def parts_of(text, sentinel='\x01NS\x01'):
+    out = []
+    for i, piece in enumerate(text.split(sentinel)):
+        if i:
+            out.append(('p',))
+        if piece:
+            out.append(('s', piece))
+    return out
+
+
+def main_dynamic():
+    d = dynamic_extract()
+    out = ['/- GENERATED by harness/extract_literals.py from /repo/src on every run. DO NOT EDIT. -/',
+           'import DznModel.Py', 'open Py', '', 'namespace Lit', '']
+    out.append(f'def version : Str := Ls {lean_str(d["VERSION"])}')
+    out.append(f'def copyright : Str := Ls {lean_str(d["COPYRIGHT"])}')
+    out.append(f'def doNotModify : Str := Ls {lean_str(d["DO_NOT_MODIFY"])}')
+    out.append(f'def eol : Str := Ls {lean_str(d["EOL"])}')
+    out.append(f'def defaultIndentNrSpaces : Nat := {int(d["DEFAULT_INDENT_NR_SPACES"])}')
+    out.append(f'def originImport : Str := Ls {lean_str(d["IMPORT"])}')
+    out.append(f'def originCreate : Str := Ls {lean_str(d["CREATE"])}')
+    out.append('')
+    for mod, suffix in SUPPORT:
+        e = d['support'][mod]
+        if any('\x01' in l for l in e['body_lines']):
+            raise TranslateError(f'{mod}: body must be constant')
+        hparts = parts_of(text_of_lines(e['header_lines']))
+        bparts = parts_of(text_of_lines(e['body_lines']))
+        name = suffix[0].lower() + suffix[1:]
+        out.append(f'def {name}Header (cppNs : Str) : Str := {lean_parts(hparts, "cppNs")}')
+        out.append(f'def {name}Body : Str := {lean_parts(bparts, "cppNs")}')
+        out.append(f'def {name}SysIncludes : List Str := [{", ".join("L " + lean_str(x) for x in e["sys"])}]')
+        out.append(f'def {name}ProjIncludes : List Str := [{", ".join("L " + lean_str(x) for x in e["proj"])}]')
+        out.append(f'def {name}FileSuffix : Str := L {lean_str(e["suffix"])}')
+        out.append('')
+    out.append('end Lit')
+    return '\n'.join(out) + '\n'
+
+
+def write_out(text):
+    os.makedirs(os.path.dirname(OUT), exist_ok=True)
+    old = open(OUT, encoding='utf-8').read() if os.path.exists(OUT) else None
+    if old != text:
+        with open(OUT, 'w', encoding='utf-8') as f:
+            f.write(text)
+        print('Literals.lean regenerated')
+    return 0
+
+
 def main():
+    # primary: run the current code's own functions; fallback: read the syntax tree (for a tree whose
+    # package cannot be imported the checks fail anyway)
+    try:
+        return write_out(main_dynamic())
+    except Exception as e:  # noqa
+        print('TRANSLATOR: dynamic path failed (%s); falling back to the syntax tree' % e)
+        return write_out(main_static())
+
+
+def main_static():
     out = ['/- GENERATED by harness/extract_literals.py from /repo/src on every run. DO NOT EDIT. -/',
            'import DznModel.Py', 'open Py', '', 'namespace Lit', '']
     ver = parse(os.path.join(SRC, 'dznpy_version.py'))
@@ -189,14 +302,7 @@ def main():
         out.append(f'def {name}FileSuffix : Str := L {lean_str(fname)}')
         out.append('')
     out.append('end Lit')
-    text = '\n'.join(out) + '\n'
-    os.makedirs(os.path.dirname(OUT), exist_ok=True)
-    old = open(OUT, encoding='utf-8').read() if os.path.exists(OUT) else None
-    if old != text:
-        with open(OUT, 'w', encoding='utf-8') as f:
-            f.write(text)
-        print('Literals.lean regenerated')
-    return 0
+    return '\n'.join(out) + '\n'
 
 
 if __name__ == '__main__':
